@@ -162,10 +162,13 @@ func (a asmInstr) alignmentChecked() bool {
 
 func checkC15(c *Ctx, r *Report, tier string) {
 	round5(c, r, "C15")
+	round6(c, r, "C15")
 	r.Rule("C15.R1", "alignment independence (object code built from the current .s files): no instruction with an alignment-checked memory operand (movaps/movdqa/…, their VEX forms, and every legacy-SSE packed instruction with an m128 source) addresses memory through one of the two data pointers (the linker-aligned constant pool is exempt)", 6)
 	r.Rule("C15.R2", "stores go only to the result slots (the pointers loaded from the 4th/5th argument) or the stack; the data pointers and the length register are never written", 6)
 	r.Rule("C15.R3", "control flow is a function of the length alone: no move from a vector register or from data memory into a general register, no comiss/ucomiss/ptest/movmsk feeding flags", 6)
 	r.Rule("C15.R9", "the kernels leave the floating-point control state alone: no ldmxcsr / vldmxcsr / fldcw / fxrstor / xrstor — rounding mode, flush-to-zero and denormals-are-zero belong to the Go runtime's thread, and a kernel that changes them changes every later result on that thread, the portable kernels' included", 6)
+	r.Rule("C15.R10", "the unrolled loop is entered exactly when a full round of it fits: where a kernel reduces the block count modulo its unroll factor U (`and r32, U-1`), the test that follows compares the rounded length minus one with (U-1)·W, W = floats per vector load (`test blocks-1` for U = 2)", 2)
+	r.Rule("C15.R11", "every accumulated value reaches the result: on every path from a scalar accumulate (addss / vaddss) to ret the result slot is stored", 6)
 	r.Rule("C15.R5", "head/tail split is consistent with the vector width: with W = floats per widest load through a data pointer, every `and reg, -M` rounding the length has M = W, and every `not reg; or reg, K` (the complement of that rounding, used to count the scalar tail) has K = W-1", 6)
 	r.Rule("C15.R6", "non-negative: every Space.Distance result is, by sign analysis of the Go wrappers, a sum of squares / absolute values, a square root, or passed through Abs/Max(0,·) — never the raw result of a floating-point subtraction such as 1 - cos", 3)
 	distancesNonNegative(c, r, "C15.R6")
@@ -420,6 +423,85 @@ func analyseKernel(c *Ctx, r *Report, name string, ins []asmInstr) {
 	} else {
 		r.OK("C15.R2", name, "stores", "-", "memory is written only through the result pointer(s) "+strings.Join(resRegs, ",")+"; argument registers are never overwritten")
 	}
+	// R11: every path from a scalar accumulate to ret passes a store to a result slot
+	{
+		idxOf := map[string]int{}
+		for k, in := range ins {
+			idxOf[strings.TrimLeft(in.addr, "0")] = k
+		}
+		target := func(in asmInstr) int {
+			if len(in.ops) == 0 {
+				return -1
+			}
+			t := strings.TrimSpace(in.ops[0])
+			if i := strings.Index(t, " "); i >= 0 {
+				t = t[:i]
+			}
+			t = strings.TrimLeft(strings.TrimPrefix(t, "0x"), "0")
+			if k, ok := idxOf[t]; ok {
+				return k
+			}
+			return -1
+		}
+		succ := func(k int) []int {
+			in := ins[k]
+			switch {
+			case in.mnem == "ret":
+				return nil
+			case in.mnem == "jmp":
+				if t := target(in); t >= 0 {
+					return []int{t}
+				}
+				return nil
+			case strings.HasPrefix(in.mnem, "j"):
+				out := []int{}
+				if t := target(in); t >= 0 {
+					out = append(out, t)
+				}
+				if k+1 < len(ins) {
+					out = append(out, k+1)
+				}
+				return out
+			}
+			if k+1 < len(ins) {
+				return []int{k + 1}
+			}
+			return nil
+		}
+		storesResult := func(in asmInstr) bool {
+			return in.memIdx == 0 && isRes(in.memBase) && in.memIndex == "" && len(in.ops) == 2 && isVecReg(in.ops[1])
+		}
+		nAcc, lost := 0, ""
+		for k, in := range ins {
+			if in.mnem != "addss" && in.mnem != "vaddss" {
+				continue
+			}
+			nAcc++
+			seen := map[int]bool{}
+			work := succ(k)
+			for len(work) > 0 {
+				j := work[len(work)-1]
+				work = work[:len(work)-1]
+				if seen[j] {
+					continue
+				}
+				seen[j] = true
+				if storesResult(ins[j]) {
+					continue
+				}
+				if ins[j].mnem == "ret" {
+					lost = in.addr + ": " + in.raw + " reaches ret at " + ins[j].addr + " without a store to the result slot"
+					break
+				}
+				work = append(work, succ(j)...)
+			}
+		}
+		if nAcc == 0 {
+			r.Unk("C15.R11", name, "accumulate-then-store", "-", "no scalar accumulate found")
+		} else {
+			r.Check(lost == "", "C15.R11", name, "accumulate-then-store", "-", fmt.Sprintf("%d scalar accumulate(s); each is followed by a store of the result on every path to ret (%s): a tail element added to the sum in a register and never written back is dropped for the lengths that end in that path", nAcc, lost))
+		}
+	}
 	// R3
 	var cf []string
 	flagSetters := map[string]bool{"comiss": true, "ucomiss": true, "vcomiss": true, "vucomiss": true, "comisd": true, "ucomisd": true, "ptest": true, "vptest": true, "vtestps": true}
@@ -471,6 +553,36 @@ func roundingConstantsAgree(c *Ctx, r *Report, name string, ins []asmInstr, role
 	if w == 0 {
 		r.Unk("C15.R5", name, "vector-width", "-", "no packed load through a data pointer found")
 		return
+	}
+	// R10: unroll threshold
+	{
+		nT, badT := 0, ""
+		for k, in := range ins {
+			if in.mnem != "and" || len(in.ops) != 2 || !isGPR(in.ops[0]) {
+				continue
+			}
+			m, err := strconv.ParseInt(strings.TrimSpace(in.ops[1]), 0, 64)
+			if err != nil || (m != 1 && m != 3 && m != 7) {
+				continue
+			}
+			// the block count was formed just before: lea r32, [rax + 1]
+			if k == 0 || ins[k-1].mnem != "lea" {
+				continue
+			}
+			for j := k + 1; j < len(ins) && j <= k+2; j++ {
+				if ins[j].mnem == "cmp" && len(ins[j].ops) == 2 {
+					if kv, err := strconv.ParseInt(strings.TrimSpace(ins[j].ops[1]), 0, 64); err == nil {
+						nT++
+						if kv != m*int64(w) {
+							badT = fmt.Sprintf("`%s` at %s follows `%s` (unroll factor %d, %d floats per load): the unrolled loop must be entered from %d rounded elements on, i.e. compare with %d", ins[j].raw, ins[j].addr, in.raw, m+1, w, (m+1)*int64(w), m*int64(w))
+						}
+					}
+				}
+			}
+		}
+		if nT > 0 || badT != "" {
+			r.Check(badT == "", "C15.R10", name, "unroll-threshold", "-", fmt.Sprintf("%d unroll threshold(s) agree with the unroll factor and the vector width (%s): with a larger threshold the lengths that hold exactly one full round skip the unrolled loop, and the remainder loop (rounds mod U = 0) sums nothing", nT, badT))
+		}
 	}
 	n, bad := 0, ""
 	imm := func(s string) (int64, bool) {
